@@ -7,11 +7,13 @@ import (
 
 	"github.com/wundergraph/graphql-go-tools/execution/graphql"
 	"github.com/wundergraph/graphql-go-tools/v2/pkg/astnormalization"
+	"github.com/wundergraph/graphql-go-tools/v2/pkg/astparser"
 	"github.com/wundergraph/graphql-go-tools/v2/pkg/astprinter"
 	"github.com/wundergraph/graphql-go-tools/v2/pkg/astvalidation"
 	"github.com/wundergraph/graphql-go-tools/v2/pkg/engine/plan"
 	"github.com/wundergraph/graphql-go-tools/v2/pkg/engine/postprocess"
 	"github.com/wundergraph/graphql-go-tools/v2/pkg/operationreport"
+	"github.com/wundergraph/graphql-go-tools/v2/pkg/variablesvalidation"
 )
 
 // Prepared is a request after exactly the steps ExecutionEngine.Execute performs before
@@ -22,6 +24,25 @@ type Prepared struct {
 	VarsBefore   string            // variables JSON after extraction
 	Normalized   string            // printed normalised operation = the plan-cache key before hashing
 	Remap        map[string]string // new name -> old name
+	VarsErr      string            // ValidateWithRemap rejected the variables
+	Collision    bool              // two variable definitions of the normalised operation share a name
+}
+
+// hasCollision: the printed operation declares one variable name twice.
+func hasCollision(text string) bool {
+	doc, rep := astparser.ParseGraphqlDocumentString(text)
+	if rep.HasErrors() {
+		return false
+	}
+	seen := map[string]bool{}
+	for i := range doc.VariableDefinitions {
+		n := doc.VariableValueNameString(doc.VariableDefinitions[i].VariableValue.Ref)
+		if seen[n] {
+			return true
+		}
+		seen[n] = true
+	}
+	return false
 }
 
 // Prepare mirrors execution/engine/execution_engine.go Execute up to getCachedPlan.
@@ -72,6 +93,13 @@ func Prepare(schema *graphql.Schema, sp *Spelled) (*Prepared, error) {
 	if err != nil {
 		return nil, err
 	}
+	p.Collision = hasCollision(p.Normalized)
+	if len(req.Variables) > 0 && req.Variables[0] == '{' {
+		validator := variablesvalidation.NewVariablesValidator(variablesvalidation.VariablesValidatorOptions{})
+		if err := validator.ValidateWithRemap(req.Document(), schema.Document(), req.Variables, p.Remap); err != nil {
+			p.VarsErr = err.Error()
+		}
+	}
 	return p, nil
 }
 
@@ -92,5 +120,20 @@ func PlanWith(planner *plan.Planner, schema *graphql.Schema, p *Prepared, ppo []
 		return nil, report
 	}
 	postprocess.NewProcessor(ppo...).Process(pl)
+	return pl, nil
+}
+
+// PlanRaw plans without post-processing: the plan still carries the flat RawFetches list.
+func PlanRaw(planner *plan.Planner, schema *graphql.Schema, p *Prepared) (pl plan.Plan, err error) {
+	defer func() {
+		if x := recover(); x != nil {
+			err = fmt.Errorf("panic while planning: %v", x)
+		}
+	}()
+	var report operationreport.Report
+	pl = planner.Plan(p.Req.Document(), schema.Document(), p.Req.OperationName, &report)
+	if report.HasErrors() {
+		return nil, report
+	}
 	return pl, nil
 }
